@@ -196,7 +196,7 @@ func genC07RecvFiles(c *ctx) {
 	os.RemoveAll(filepath.Join(work, "l1"))
 	c.count(fmt.Sprintf("tree:validates-json=%v,validates-plain=%v", chkU, chkC))
 
-	n := c.pick(500, 5000)
+	n := c.pick(400, 5000)
 	pool := c.c09Pool()[:6]
 	for ci := 0; ci < n; ci++ {
 		root := work
@@ -304,6 +304,18 @@ func genC07RecvFiles(c *ctx) {
 		newTop := c07rTopLevel(post, pre)
 		if errText == "" {
 			c.count("session:success")
+			// order: when the roots announced are pairwise unrelated names with their own path ids,
+			// the k-th reported name is the k-th root (possibly renamed root.N)
+			if ro := c07rRootOrder(recs, plain); ro != nil && len(ro) == len(names) {
+				for j := range ro {
+					if names[j] != ro[j] && !strings.HasPrefix(names[j], ro[j]+".") {
+						c09Violate(c, "reported-order:"+key, "the names are not reported in the order in which their roots arrived",
+							fmt.Sprintf("%s: roots arrived as %q, reported %q", desc, ro, names))
+						break
+					}
+				}
+				c.count("session:order-checked")
+			}
 			seen := map[string]bool{}
 			for _, nm := range names {
 				if seen[nm] {
@@ -538,6 +550,14 @@ func genC07NamesE2E(c *ctx) {
 			}
 			if len(names) != len(tops) {
 				ec.viol = append(ec.viol, fmt.Sprintf("round %d: %d sources, %d names shown (%q)", round, len(tops), len(names), names))
+			} else {
+				// the list follows the order of the sources
+				for j, t := range tops {
+					if b := filepath.Base(t); names[j] != b && !strings.HasPrefix(names[j], b+".") {
+						ec.viol = append(ec.viol, fmt.Sprintf("round %d: sources %q, shown in another order %q", round, tops, names))
+						break
+					}
+				}
 			}
 			for j, nm := range names {
 				for _, other := range names[:j] {
@@ -563,4 +583,45 @@ func genC07NamesE2E(c *ctx) {
 				ec.desc+" :: "+strings.Join(ec.viol, "; "))
 		}
 	}
+}
+
+// the roots of a session in order of first appearance, or nil when the positional comparison
+// would be ambiguous (a root that is another root plus ".suffix", one path id for two roots, a
+// foreign archive entry)
+func c07rRootOrder(recs []c07rRec, plain bool) []string {
+	var order []string
+	idOf := map[string]int{}
+	rootOf := map[int]string{}
+	for _, r := range recs {
+		if r.foreign {
+			return nil
+		}
+		root, id := r.raw, -1
+		if !plain {
+			pid, rel, _, _, _, ok := trzsz.VerifDecodeSourceFile(r.raw)
+			if !ok || len(rel) == 0 {
+				return nil
+			}
+			root, id = rel[0], pid
+			if prev, ok := rootOf[id]; ok && prev != root {
+				return nil
+			}
+			rootOf[id] = root
+			if prevID, ok := idOf[root]; ok && prevID != id {
+				return nil
+			}
+		}
+		if _, ok := idOf[root]; !ok {
+			idOf[root] = id
+			order = append(order, root)
+		}
+	}
+	for _, a := range order {
+		for _, b := range order {
+			if a != b && strings.HasPrefix(a, b+".") {
+				return nil
+			}
+		}
+	}
+	return order
 }
